@@ -20,6 +20,39 @@ KINDS = {"T": 0, "H": 1, "U": 2, "N": 3}
 
 ASK_PARENT = object()
 
+def plain_post(ao, kind, e, form):
+    """an immediate post on an active object, in one of the ways the signature allows: no period = post now, whatever the
+    other optional arguments say"""
+    f = ao.post_fifo if kind == "F" else ao.post_lifo
+    form = form % 6
+    if form in (0, 1):
+        return f(e)
+    if form == 2:
+        return f(e, times=2)
+    if form == 3:
+        return f(e, None, 3)
+    if form == 4:
+        return f(e, deferred=False)
+    return f(e, times=1, deferred=True)
+
+
+def timed_post(ao, kind, e, period, times, deferred, form):
+    """a timed post with the given period / times / deferred, by keyword, by position, or leaving out what equals the default"""
+    f = ao.post_fifo if kind == "F" else ao.post_lifo
+    # the flag as a program may hold it: the bool, or another value of the same truth (a count, a text, a container)
+    deferred = ((True, False), (1, 0), ("yes", ""), ([0], None), (2.5, 0.0))[(form // 5) % 5][0 if deferred else 1]
+    form = form % 5
+    if form == 1:
+        return f(e, period, times, deferred)
+    if form == 2:
+        return f(e, period, times=times, deferred=deferred)
+    if form == 3 and times == 0:
+        return f(e, period=period, deferred=deferred)              # times left out: for ever
+    if form == 4 and deferred:
+        return f(e, period, times)                                   # deferred left out: the default (True)
+    return f(e, period=period, times=times, deferred=deferred)
+
+
 STRING_FORMS = ("literal", "built at run time", "decoded from JSON", "str subclass", "read from a stream")
 
 
@@ -103,6 +136,9 @@ class GenChart:
                 "nsig": self.nsig,
                 "tran_codes": [[i, sg, c] for (i, sg), c in sorted(getattr(self, "tran_codes", {}).items())],
                 "parent_via_callback": bool(getattr(self, "parent_via_callback", False)),
+                "node_style": bool(getattr(self, "node_style", False)),
+                "same_names": bool(getattr(self, "same_names", False)),
+                "silent_actions": bool(getattr(self, "silent_actions", False)),
                 "react": [[i, s, r[0], (r[1] if len(r) > 1 else 0)] for i in sorted(self.react) for s, r in
                           sorted(self.react[i].items())]}
 
@@ -120,6 +156,12 @@ class GenChart:
             g.tran_codes = {(i, sg): c for i, sg, c in d["tran_codes"]}
         if d.get("parent_via_callback"):
             g.parent_via_callback = True
+        if d.get("node_style"):
+            g.node_style = True
+        if d.get("same_names"):
+            g.same_names = True
+        if d.get("silent_actions"):
+            g.silent_actions = True
         return g
 
     # ---- driver encoding ------------------------------------------------------
@@ -166,6 +208,8 @@ class GenChart:
                 return "em"
             if sn == "REFLECTION_SIGNAL":
                 return "rf"
+            if SIGNAL_NAMES and sn in SIGNAL_NAMES:
+                return "u%d" % SIGNAL_NAMES.index(sn)
             if sn.startswith("E") and sn[1:].isdigit():
                 return "u" + sn[1:]
             return "x:" + sn
@@ -184,6 +228,8 @@ class GenChart:
                     left.discard(i)
                 if e.signal == signals.ENTRY_SIGNAL and ch.entryh[i]:
                     status = return_status.HANDLED
+                    if getattr(ch, "silent_actions", False):
+                        return None         # an entry action that does its work and ends with a bare `return`
                 elif e.signal == signals.EXIT_SIGNAL and i in getattr(ch, "exit_none", ()):
                     return None             # the exit clause forgot its `return return_status.HANDLED`
                 elif e.signal == signals.EXIT_SIGNAL and ch.exith[i]:
@@ -195,6 +241,8 @@ class GenChart:
                         status = chart.trans(fns[ch.init[i]])
                     else:
                         status = return_status.HANDLED
+                        if getattr(ch, "silent_actions", False):
+                            return None     # an init action without a transition and without a status
                 elif kind[0] == "u" and int(kind[1:]) in ch.react[i]:
                     r = ch.react[i][int(kind[1:])]
                     if r[0] == "T":
@@ -218,6 +266,8 @@ class GenChart:
                     else:
                         return None
                 else:
+                    if kind == "em" and i in getattr(ch, "empty_none", ()):
+                        return None         # a guarded state that has no answer when the processor asks again after UNHANDLED
                     if i in getattr(ch, "fallthrough", ()):
                         return None         # an if/elif ladder without a final else: no status for anything it has no clause for
                     if i in getattr(ch, "super_none", ()) or i in left:
@@ -232,8 +282,9 @@ class GenChart:
                 if after is not None:
                     after(chart, i, kind, e, status)
                 return status
-            st.__name__ = "%s%d" % (name_prefix, i)
+            st.__name__ = "state" if getattr(ch, "same_names", False) else "%s%d" % (name_prefix, i)
             st.__qualname__ = st.__name__
+            st._vp_id = i           # (kept by functools.wraps on a decorating wrapper)
             if via_callback:
                 # hand-written handler in the register_parent style: `with chart.parent_callback() as parent:` (no argument: the
                 # chart works out who is asking), defined from source text so that the function really carries the state's name
@@ -245,6 +296,9 @@ class GenChart:
                      "            status, chart.temp.fun = return_status.SUPER, parent\n"
                      "    return status\n" % st.__name__, ns)
                 st = ns[st.__name__]
+            if getattr(ch, "node_style", False) and not spied:
+                # every state is the SAME method of a different object (`node.handler`): states differ by the object they are bound to
+                return _Node(i, st).handler
             if isinstance(spied, (set, frozenset, list, tuple)):
                 return mhsm.spy_on(st) if i in spied else st       # only some states carry the decorator
             return mhsm.spy_on(st) if spied else st
@@ -252,6 +306,15 @@ class GenChart:
         for i in range(1, self.n + 1):
             fns[i] = mk(i)
         return fns
+
+
+class _Node:
+    def __init__(self, i, inner):
+        self.vp_id = i
+        self.inner = inner
+
+    def handler(self, chart, e):
+        return self.inner(chart, e)
 
 
 def fmt_log(log):
@@ -360,14 +423,29 @@ def probed_class(base):
     return Probed
 
 
+# user signal number n -> its name; normally E<n>; a stream may install other names (any string is a legal signal name)
+SIGNAL_NAMES = None
+ODD_SIGNAL_NAMES = ["SET{level}", "REPORT{}", "OPEN{", "CLOSE}", "{0}", "100%", "%s", "a b", "\u00e9v\u00e9nement", "E-1"]
+
+
+def sig_name(n):
+    if SIGNAL_NAMES and n < len(SIGNAL_NAMES):
+        return SIGNAL_NAMES[n]
+    return "E%d" % n
+
+
 def ev(n):
-    return Event(signal="E%d" % n)
+    return Event(signal=sig_name(n))
 
 
 def state_id(fn, fns_inv):
     if fn is None:
         return -1
     f = getattr(fn, "__wrapped__", fn)
+    if hasattr(getattr(f, "__self__", None), "vp_id"):
+        return f.__self__.vp_id
+    if hasattr(f, "_vp_id"):
+        return f._vp_id
     name = getattr(f, "__name__", "?")
     if name == "top":
         return 0
@@ -393,6 +471,7 @@ def run_real(chart, ops, host="plain", spied=False, builder=None):
     out = []
     names = []
     hsm._vp_names = names
+    hsm._vp_identity = []
     for o, a in ops:
         del log[:]
         if hasattr(chart, "none_log"):
@@ -407,7 +486,12 @@ def run_real(chart, ops, host="plain", spied=False, builder=None):
             elif o == 2:
                 res = 1 if hsm.is_in(fns[a] if a else hsm.top) else 0
             else:
-                res = state_id(hsm.child_state(fns[a] if a else hsm.top), inv)
+                got_fn = hsm.child_state(fns[a] if a else hsm.top)
+                res = state_id(got_fn, inv)
+                # the answer is one of the chart's states AS THE CHART WAS GIVEN THEM (what start_at / a transition target / a later
+                # query accepts), not some other function of the same name
+                if not any(got_fn == f for f in list(fns.values()) + [hsm.top]):
+                    hsm._vp_identity.append((len(out), a, getattr(got_fn, "__qualname__", repr(got_fn))))
             st = state_id(hsm.state.fun, inv)
             tp = state_id(hsm.temp.fun, inv)
             rec = {"state_name": getattr(hsm, "state_name", None),
